@@ -316,7 +316,7 @@ pub fn run(tier: Tier) -> i32 {
     }
 
     // (3) at one leaf at a time, every value over the class alphabet
-    let values = strings_over(VALUE_SIGMA, tier.pick(3, 4));
+    let values = strings_over(VALUE_SIGMA, tier.pick(4, 5));
     let work: Vec<(usize, usize)> = all_shapes.iter().enumerate().flat_map(|(si, s)| (0..s.leaves()).map(move |p| (si, p))).collect();
     let acc3 = work
         .par_iter()
@@ -351,7 +351,7 @@ pub fn run(tier: Tier) -> i32 {
     cov.rule = format!(
         "{} tree shapes (<=3 leaves, nesting <=3, NOT via negate() and via `!`, AND in both association orders) x every assignment of the 8 leaf kinds (5 operators, Filter::tag, tag_exists, tag_absent) with rotating tags; every tag x kind on a single leaf; at one leaf at a time every value of length <= {} over {:?} ({} values); all pairs of single-symbol values on a two-leaf AND; each rendered through find, count, list…filter and count…group; non-trivial = trees with several leaves or a value containing a non-alphanumeric byte",
         all_shapes.len(),
-        tier.pick(3, 4),
+        tier.pick(4, 5),
         VALUE_SIGMA,
         values.len()
     );
